@@ -58,10 +58,10 @@ CHECKS['C03'] = dict(
          'steps (=> closure under sequences); cache_location for every in-range offset; y_distance_to for every ordered pair of positions; 1-D iterator, x-iterator and '
          'y-iterator laws for every start i and every n, m with i+n, i+n+m inside [0,size]; is_1d_traversable only-when. evaluations = states; non-trivial = non-empty states.',
     assumptions=_VS_ASSUME,
-    tus=_vs_tus('c03', 'harness/c03_nav.cpp'),
-    runs=dict(quick=_vs_runs('c03', dict(N=3, depth=2, pads=2, subimage=1, maxsub=2), 2),
-              thorough=_vs_runs('c03', dict(N=5, depth=2, pads=3, subimage=1, maxsub=3), 8) +
-                       _vs_runs('c03', dict(N=3, depth=3, pads=2, subimage=2, maxsub=2), 8)),
+    tus=_vs_tus('c03', 'harness/c03_nav.cpp', _VS_C02_ONLY),
+    runs=dict(quick=_vs_runs('c03', dict(N=3, depth=2, pads=2, subimage=1, maxsub=2), 2, extra=_VS_C02_ONLY),
+              thorough=_vs_runs('c03', dict(N=5, depth=2, pads=3, subimage=1, maxsub=3), 8, extra=_VS_C02_ONLY) +
+                       _vs_runs('c03', dict(N=3, depth=3, pads=2, subimage=2, maxsub=2), 8, extra=_VS_C02_ONLY)),
     witnesses_required=dict(all=['negative_step_states', 'transposed_states', 'channel_states', 'padded_rows', 'traversable_true', 'traversable_false']),
     deadline=dict(quick=900, thorough=5400),
 )
